@@ -174,16 +174,23 @@ def run(ctx):
                       "raises: a query with an unbalanced %s is accepted instead of rejected" % (op, op),
                       desc="branch Token.%s closes or raises" % op)
     # a closing symbol in term position is rejected, not taken as a search term
-    terms = [(n_, c) for (n_, c) in v.calls(lambda c: call_name(c) == "Expression")]
+    # (the term branch may live in a private helper of the parser that does not recurse back into it)
+    from sa.callgraph import STRONG_KINDS as _SK15
+    term_funcs = [gp] + [f_ for f_ in cg.reachable([gp], _SK15) if f_ is not gp and f_.cls is qh and gp not in cg.reachable([f_], _SK15)]
+    terms = []
+    for tf in term_funcs:
+        vt = view(ctx, tf)
+        terms += [(tf, vt, n_, c) for (n_, c) in vt.calls(lambda c: call_name(c) == "Expression")]
     ctx.floor("R15.3", "plain-term constructions in the grouping parser", len(terms), 1)
-    for n_, c in terms:
+    for tf, vt, n_, c in terms:
+        ctx.saw(tf)
         need = [op + "End" for op in openers]
-        g = v.guard_for(n_, lambda t: all(any(isinstance(x, ast.Attribute) and x.attr == k for x in ast.walk(t)) for k in need),
-                        want_leave=("raise",))
-        g2 = v.guard_for(n_, lambda t: any(isinstance(x, ast.Attribute) and x.attr == "Tag" for x in ast.walk(t)) and
-                         any(isinstance(x, ast.Attribute) and x.attr == "kind" for x in ast.walk(t)))
+        g = vt.guard_for(n_, lambda t: all(any(isinstance(x, ast.Attribute) and x.attr == k for x in ast.walk(t)) for k in need),
+                         want_leave=("raise",))
+        g2 = vt.guard_for(n_, lambda t: any(isinstance(x, ast.Attribute) and x.attr == "Tag" for x in ast.walk(t)) and
+                          any(isinstance(x, ast.Attribute) and x.attr == "kind" for x in ast.walk(t)))
         ok = g is not None or (g2 is not None and g2[1] is True)
-        ctx.check(ok, "R15.3", gp.qualname, c, loc(gp, c),
+        ctx.check(ok, "R15.3", tf.qualname, c, loc(tf, c),
                   "a token in term position becomes a search term whatever its kind: a stray closing symbol (`]`, `)`, `}`, "
                   "`a && )`) compiles instead of being rejected as unbalanced", desc="closing symbols rejected in term position")
     vp = view(ctx, parse)
@@ -328,7 +335,8 @@ def _only_guards_raise(m, cmp):
 
 
 def _folded_pattern(fi):
-    """Constant-fold the string handed to re.compile in the tokenizer (plain / f-string locals)."""
+    """Constant-fold the pattern the tokenizer applies: plain / f-string / concatenated locals or module constants, handed
+    to re.compile / findall / finditer directly or through a (module-level or local) compiled pattern."""
     env = {}
     node = None
 
@@ -350,18 +358,24 @@ def _folded_pattern(fi):
         if isinstance(e, ast.BinOp) and isinstance(e.op, ast.Add):
             a, b = fold(e.left), fold(e.right)
             return None if a is None or b is None else a + b
+        if isinstance(e, ast.Call) and call_name(e) == "compile" and e.args:
+            return fold(e.args[0])
         return None
-    out = None
-    for st in fi.node.body:
+    for st in list(fi.module.tree.body) + list(fi.node.body):
         if isinstance(st, ast.Assign) and len(st.targets) == 1 and isinstance(st.targets[0], ast.Name):
             val = fold(st.value)
             if val is not None:
                 env[st.targets[0].id] = val
-        for c in ast.walk(st):
-            if isinstance(c, ast.Call) and call_name(c) in ("compile", "findall", "finditer") and c.args and out is None:
+    out = None
+    for c in ast.walk(fi.node):
+        if isinstance(c, ast.Call) and call_name(c) in ("compile", "findall", "finditer") and out is None:
+            val = None
+            if isinstance(c.func, ast.Attribute) and isinstance(c.func.value, ast.Name) and c.func.value.id != "re":
+                val = env.get(c.func.value.id)           # <compiled pattern>.findall(text)
+            elif c.args:
                 val = fold(c.args[0])
-                if val is not None:
-                    out, node = val, c
+            if val is not None:
+                out, node = val, c
     return out, node
 
 
